@@ -658,7 +658,10 @@ def run(tier, seed):
                                (r, sh))
                     if semis >= 0:
                         want = sorted(set([pitch(r, 4), pitch(r, 4) + semis]))
-                        if ps != want or obs[0] != (r, 4) or (len(obs) == 2 and obs[1][0][0] != letter2):
+                        # an interval of an octave or more ('#7', '##7'): read as a transposition it lies 12/13
+                        # semitones up, read as a name voiced upward it lies less than an octave up; both accepted
+                        alt = sorted(set([pitch(r, 4), pitch(r, 4) + semis % 12]))
+                        if ps not in (want, alt) or obs[0] != (r, 4) or (len(obs) == 2 and obs[1][0][0] != letter2):
                             R.fail("NoteContainer.from_interval_shorthand",
                                    "starts-on-the-root-in-octave-4" if obs[:1] != [(r, 4)]
                                    else "ascends-through-the-chords-notes-in-order",
